@@ -107,6 +107,20 @@ func generate(w *mon.W) {
 			return
 		}
 	}
+	// every ordered pair of lexemes, glued, spaced and on two lines: a token is
+	// scanned the same whatever was scanned before it (unterminated strings and
+	// names, escapes, numbers that stop early, comments included)
+	for i, a := range lexemes {
+		for _, b := range lexemes {
+			for _, sep := range []string{"", " ", "\n"} {
+				s := a + sep + b
+				w.Do(s, func(r *mon.R) { Check(s, r) })
+			}
+		}
+		if i%16 == 0 && w.Stopped() {
+			return
+		}
+	}
 	// every integer in the neighbourhood of the widths numbers are stored in
 	// (2^31, 2^32, 2^53, 2^63, 2^64, 10^19, 10^20), in decimal, padded decimal
 	// and hexadecimal: the last digit matters for overflow checks
